@@ -169,6 +169,9 @@ pub fn random_cfg(rng: &mut Sm, i: usize) -> AgentCfg {
             _ => (rng.range(5, 95) as f32) / 100.0,
         }
     };
+    // a twentieth of the random-agent tick ranges sit at the very top of the price range (products just below 2^32)
+    let top_ticks = rng.chance(0.05);
+    let top_hi = (PMAX - 1) / ticks[asset];
     let lo = rng.range(1, 2000) as u32;
     let sigma = *rng.pick(&[0.1, 1.0, 1.0, 10.0, 10.0]);
     AgentCfg {
@@ -178,7 +181,7 @@ pub fn random_cfg(rng: &mut Sm, i: usize) -> AgentCfg {
         ticks,
         n_agents: rng.range(1, 40) as u16,
         id_start: rng.below(1000) as u32,
-        tick_range: (lo, lo + rng.range(1, 60) as u32),
+        tick_range: if top_ticks { (top_hi - rng.range(2, 60) as u32, top_hi) } else { (lo, lo + rng.range(1, 60) as u32) },
         vol_range: {
             let v = rng.range(1, 100) as u32;
             (v, v + rng.range(1, 50) as u32)
